@@ -63,7 +63,7 @@ structure Req where
   deriving Repr
 
 /-- `get_cache` + `insert_cache_item` + `MokaCache::insert`: may this response be stored? -/
-def admit (cfg : Cfg) (getOrHead : Bool) (o : Out) : Bool :=
+def admissible (cfg : Cfg) (getOrHead : Bool) (o : Out) : Bool :=
   !o.stream && cfg.cacheEnabled && cfg.filter o.status && o.pref.caches && getOrHead && !o.kccNone && o.size < SIZE_LIMIT
 
 /-- `get_cache_item`: an entry past its lifetime is invalidated on read -/
@@ -105,7 +105,7 @@ def imsFresh (cfg : Cfg) (r : Req) (e : Entry) : Bool :=
 
 /-- the miss path: compute, then store if admissible -/
 def miss (cfg : Cfg) (s2 : Store) (nowMs : Nat) (r : Req) (compute : Out) : Store × Reply :=
-  if admit cfg r.getOrHead compute then (put s2 (storeKey r compute) ⟨compute, nowMs⟩, .computed compute)
+  if admissible cfg r.getOrHead compute then (put s2 (storeKey r compute) ⟨compute, nowMs⟩, .computed compute)
   else (s2, .computed compute)
 
 /-- `handle_cache` for one request at time `nowMs`; `compute` is what the handler returns if it is invoked. -/
